@@ -25,7 +25,8 @@ struct World {
 async fn build_world(gp: u64, len: usize, rng: &mut Rng) -> World {
     let params = Params { genesis_period: gp, ..Params::default() };
     let mut node = Node::new(&params, 1);
-    let issuance: Vec<_> = (0..12u64).map(|k| (node.pk, 1_000_000 + k * 1000)).collect();
+    // outputs k and k+6 carry the same amount (needed by the input-substitution edit)
+    let issuance: Vec<_> = (0..12u64).map(|k| (node.pk, 1_000_000 + (k % 6) * 1000)).collect();
     let g = make_genesis(&node, 1_000_000, &issuance).await.unwrap();
     assert_eq!(node.add_block(g.clone()).await, AddClass::OnChain);
     let mut slips: Vec<Slip> = (0..12).map(|k| g.transactions[k].to[0].clone()).collect();
@@ -72,6 +73,7 @@ const EDITS: &[&str] = &[
     "flip-creator-keep-sig",
     "resign-other-key-keep-creator",
     "zero-merkle-root-field",
+    "substitute-equal-amount-input",
 ];
 
 #[tokio::main(flavor = "current_thread")]
@@ -134,13 +136,30 @@ async fn main() {
                         b.sign(&other.1);
                     }
                     "zero-merkle-root-field" => b.merkle_root = [0; 32],
+                    "substitute-equal-amount-input" => {
+                        // another unspent output of the same owner with the same amount and slip index:
+                        // the signed bytes of an input omit block id and transaction ordinal
+                        let cur = b.transactions[n0].from[0].clone();
+                        if let Some(alt) = w.slips.iter().skip(ntx).find(|s| {
+                            s.amount == cur.amount && s.slip_index == cur.slip_index && s.utxoset_key != cur.utxoset_key
+                        }) {
+                            let mut alt = alt.clone();
+                            alt.generate_utxoset_key();
+                            b.transactions[n0].from[0] = alt;
+                        }
+                    }
                     _ => {}
                 }
                 // what a receiving node does first: recompute derived data
                 let _ = b.generate();
                 let same_hash = b.hash == original.hash;
-                let content_changed = b.transactions.iter().map(|t| t.signature).collect::<Vec<_>>()
-                    != original.transactions.iter().map(|t| t.signature).collect::<Vec<_>>();
+                let content_of = |bl: &Block| {
+                    bl.transactions
+                        .iter()
+                        .map(|t| (t.signature, t.from.iter().map(|s| s.get_utxoset_key()).collect::<Vec<_>>()))
+                        .collect::<Vec<_>>()
+                };
+                let content_changed = content_of(&b) != content_of(&original);
                 // verdicts of the real identity checks
                 let root_ok = b.merkle_root == b.generate_merkle_root(false, false);
                 let sig_ok = verify_signature(&b.pre_hash, &b.signature, &b.creator);
@@ -187,6 +206,12 @@ async fn main() {
                             if c != want {
                                 summary.oracle_failure(case_no, &format!("unedited block: {:?}, expected {:?}", c, want), &desc);
                             }
+                        } else if accepted && same_hash && content_changed && *edit == "substitute-equal-amount-input" {
+                            summary.known_hit(
+                                "input-location-unsigned",
+                                case_no,
+                                "a transaction input replaced by another equal-amount output of the same owner: same transaction hash, same block hash, block accepted",
+                            );
                         } else if accepted && same_hash && content_changed {
                             summary.oracle_failure(
                                 case_no,
